@@ -68,29 +68,68 @@ def is_solved(board):
     return bool((b >= 0).all() and (b < N).all() and not duplicates(b))
 
 
-def solve(board, budget=200000):
-    """Backtracking solver (most-constrained cell first) -> solved board or None (no solution / budget)."""
-    b = np.asarray(board).astype(np.int64).copy()
+def solve(board, budget=20000):
+    """Backtracking solver (bit masks, most-constrained cell first) -> solved board, or None when there is no
+    solution or the node budget is exhausted."""
+    b = np.asarray(board).astype(np.int64)
+    rows, cols, boxes = [0] * N, [0] * N, [0] * N
+    grid = [[int(b[r, c]) for c in range(N)] for r in range(N)]
+    empt = []
+    for r in range(N):
+        for c in range(N):
+            d = grid[r][c]
+            if d < 0:
+                empt.append((r, c))
+                continue
+            bit = 1 << d
+            k = 3 * (r // 3) + c // 3
+            if d >= N or (rows[r] | cols[c] | boxes[k]) & bit:
+                return None
+            rows[r] |= bit
+            cols[c] |= bit
+            boxes[k] |= bit
     nodes = [0]
+    full = (1 << N) - 1
 
     def rec():
         nodes[0] += 1
         if nodes[0] > budget:
             return False
-        m = legal_mask(b)
-        empt = np.argwhere(b == -1)
-        if len(empt) == 0:
+        best, bi, bm = 10, -1, 0
+        for i, (r, c) in enumerate(empt):
+            if grid[r][c] >= 0:
+                continue
+            m = full & ~(rows[r] | cols[c] | boxes[3 * (r // 3) + c // 3])
+            n = bin(m).count("1")
+            if n < best:
+                best, bi, bm = n, i, m
+                if n <= 1:
+                    break
+        if bi < 0:
             return True
-        counts = m.sum(-1)
-        r, c = min(((int(r), int(c)) for r, c in empt), key=lambda rc: counts[rc])
-        for d in np.flatnonzero(m[r, c]):
-            b[r, c] = d
-            if rec():
-                return True
-            b[r, c] = -1
+        if best == 0:
+            return False
+        r, c = empt[bi]
+        k = 3 * (r // 3) + c // 3
+        for d in range(N):
+            bit = 1 << d
+            if bm & bit:
+                grid[r][c] = d
+                rows[r] |= bit
+                cols[c] |= bit
+                boxes[k] |= bit
+                if rec():
+                    return True
+                grid[r][c] = -1
+                rows[r] &= ~bit
+                cols[c] &= ~bit
+                boxes[k] &= ~bit
         return False
 
-    return b if rec() and is_solved(b) else None
+    if not rec():
+        return None
+    out = np.array(grid, np.int64)
+    return out if is_solved(out) else None
 
 
 class M(Model):
@@ -236,16 +275,26 @@ class M(Model):
 
     # ---- constructive moves for the 'solve' plan mode
     def solve_action(self, s, r=0):
-        """A (row, col, digit) that keeps the puzzle on a path to its solution (r picks the cell)."""
+        """A (row, col, digit) that keeps the puzzle on a path to its solution (r picks the cell); None once the
+        position has no solution (or the search budget was exhausted on it or on a predecessor)."""
         b = np.asarray(s.board).astype(np.int64)
         if b.shape != (N, N) or out_of_range(b) or not (b == -1).any():
             return None
+        dead = getattr(self, "_dead", None)
+        if dead is not None and ((dead == -1) | (dead == b)).all():
+            return None  # extends a position already found hopeless
         sol = getattr(self, "_sol", None)
-        if sol is None or not ((b == -1) | (b == sol)).all():
-            sol = solve(b, budget=20000) if not duplicates(b) else None
-            self._sol = sol
         if sol is None:
-            return None
+            # a solution shipped with the generator (DummyGenerator) is used only after it has been verified
+            cand = getattr(getattr(self.env, "_generator", None), "_solved_board", None)
+            if cand is not None and np.asarray(cand).shape == (N, N) and is_solved(cand):
+                sol = np.asarray(cand).astype(np.int64)
+        if sol is None or not ((b == -1) | (b == sol)).all():
+            sol = solve(b, budget=5000)
+            self._sol = sol
+            if sol is None:
+                self._dead = b.copy()
+                return None
         empt = np.argwhere(b == -1)
         rr, cc = empt[int(r) % len(empt)]
         return [int(rr), int(cc), int(sol[rr, cc])]
